@@ -33,14 +33,14 @@ func (w *World) commitOnce(flavour string, workers int) error {
 
 func (w *World) scheduledNFC(workers int) error {
 	s := NewSched("random", NewRng(0x9e3779b97f4a7c15^uint64(w.Commits)<<20^uint64(w.Ledger.seq)))
-	atree.VerifYield = func(site string, id atree.SlabID) { s.Yield(site + ":" + RegIDOf(id).String()) }
+	s.Install()
 	var err error
 	var pv any
 	live := s.RunBubble(TestingT, []func(){func() {
 		defer func() { pv = recover() }()
 		err = w.Storage.NondeterministicFastCommit(workers)
 	}})
-	atree.VerifYield = nil
+	s.Uninstall()
 	w.Stats.Add("sched.worker-decisions", s.Decisions)
 	w.Stats.Inc("sched.faulted-nfc-under-scheduler")
 	if pv != nil {
